@@ -7,6 +7,7 @@
 //   - '!' negates; a leading '/' anchors to the root, otherwise the pattern may
 //     start at any depth; a trailing '/' selects a directory (never a file of
 //     that name) and everything below it
+//   - a backslash makes the next character ('#', '!', '*', '?') stand for itself
 //   - '*' and '?' stay inside one path segment; a '**' segment spans zero or
 //     more segments (one or more when it ends the pattern)
 package refignore
@@ -97,6 +98,16 @@ func matchSeg(pat, s string) bool {
 				return false
 			case '?':
 				if j >= len(sr) {
+					return false
+				}
+				i++
+				j++
+			case '\\':
+				// the next character stands for itself
+				if i+1 < len(pr) {
+					i++
+				}
+				if j >= len(sr) || sr[j] != pr[i] {
 					return false
 				}
 				i++
